@@ -175,6 +175,29 @@ def forced_locals(fl, b, base):
     return out
 
 
+def _chain_closures(facts, b, fl, bb, depth=0, acc=None):
+    """closure bodies handed to the iterator adapters that feed the call at block bb (collect(map(iter, closure)))"""
+    acc = acc if acc is not None else []
+    if depth > 5:
+        return acc
+    t = b.term(bb)
+    for a in t["args"]:
+        if a[0] == "k":
+            continue
+        ty = b.local_ty(a[1][0])
+        if "closure@" in ty:
+            for cb in facts.closures_of(b.root or b.id):
+                if ("closure@%s:%d:" % (cb.file, cb.line)) in ty and cb not in acc:
+                    acc.append(cb)
+            continue
+        for o in fl.origins(a, (bb, None)):
+            if o[0] == "call" and o[1] != bb:
+                d = (b.term(o[1])["f"].get("def") or "") + " " + (o[2] or "")
+                if any(x in d for x in ("std::iter", "IntoIterator", "::map", "::iter", "::into_iter", "::branch", "::enumerate", "::zip", "::filter")):
+                    _chain_closures(facts, b, fl, o[1], depth + 1, acc)
+    return acc
+
+
 def run(facts, rep, tier):
     rep.rule("C09.K", "partial accessors of Type (those that panic for some variants; derived by abstract interpretation) are "
                       "only reachable in the type-inference slice when the receiver is known to have an admissible variant: "
@@ -256,6 +279,19 @@ def run(facts, rep, tier):
                     if not ok2:
                         return False, why2
                     continue
+                if cn and cn.endswith(("::collect", "::from_iter")):
+                    # `deps.iter().map(|d| self.process_node(d)).collect::<Result<Vec<_>>>()`: the elements are what the closure
+                    # of the chain returns
+                    cls = _chain_closures(facts, gb, flow_of(g), bb)
+                    if cls:
+                        okc = True
+                        for c_ in cls:
+                            ok2, why2 = ret_admissible(c_.id, bad, (g, bb), depth + 1, seen + (key,))
+                            if not ok2:
+                                okc, whyc = False, why2
+                        if okc:
+                            continue
+                        return False, whyc
                 return False, "%s returns the result of %s" % (g.split("::")[-1], cn)
             if op[0] == "k":
                 continue
@@ -470,6 +506,12 @@ def run(facts, rep, tier):
             ordn[short] = o + 1
             bad = {v for _, v in tvars} - acc[cn]
             ok, why = reachable_under(name, bb, t["args"][0], bad)
+            import re as _re
+            if not ok and "parameter `" not in why and _re.search(r"producer \('param', 1, \('[a-z_]+',\)\) not analysable", why):
+                # the chain ends in a named field of the worker itself (its type cache) that the engine cannot read, without
+                # passing through an unvalidated parameter: not a finding about the code (F8, by contrast, flows from a parameter)
+                rep._unjudged("C09.K", "%s|%s#%d" % (name, short, o), "%s(): %s" % (short, why[:300]))
+                continue
             rep.ob("C09.K", "%s|%s#%d" % (name, short, o), ok,
                    ("%s: %s" % (short, why)) if ok else
                    "%s() panics for %s; %s -- an ill-typed argument would crash add_node instead of being rejected" % (
@@ -710,7 +752,12 @@ def arity_rules(facts, rep):
                         a_or = fl.origins(src["a"], (src["bb"], src["j"])) | fl.origins(src["b"], (src["bb"], src["j"]))
                         if any(o[0] == "call" and o[1] in ar for o in a_or):
                             cmp_sw.append((bb, src))
-            rep.ob("C09.A", "process_node|arity-compared", bool(cmp_sw),
+            if not cmp_sw and any(callee_name(t_) in facts.bodies and facts.bodies[callee_name(t_)].file == p.file and
+                                  any(o_[0] == "call" and o_[1] in ar for a_ in t_["args"] if a_[0] != "k" for o_ in fl.origins(a_, (bb_, None)))
+                                  for bb_, t_ in p.calls() if not p.is_cleanup(bb_)):
+                rep._unjudged("C09.A", "process_node|arity-compared", "the arity is handed to a helper that compares it; not read by this rule")
+            else:
+              rep.ob("C09.A", "process_node|arity-compared", bool(cmp_sw),
                    "the dependency count is compared with get_number_of_node_dependencies (%d test(s))" % len(cmp_sw), p.loc())
 
 
